@@ -34,7 +34,8 @@ FLOORS = {'aggregate_evaluations': 3000, 'two_dimensional': 200,
           'absolute_rectangles': 100, 'big_rectangles': 6,
           'big_integer_cases': 50, 'zero_valued_rectangles': 6,
           'derived_models': 20, 'float_lookalike_text_cases': 50,
-          'placed_rectangle_cases': 500}
+          'placed_rectangle_cases': 500, 'long_zero_runs': 6,
+          'switched_failure_evaluations': 50}
 ANCHOR_FUNCS = {
     'xlcalculator/xlfunctions/math.py': ['SUM', 'SUMPRODUCT'],
     'xlcalculator/xlfunctions/statistics.py': ['AVERAGE', 'MIN', 'MAX',
@@ -332,6 +333,25 @@ def run(ctx):
         add_rect_cases(m, 'big', funcs=['SUM', 'AVERAGE', 'MIN', 'MAX'])
         ctx.event('big_rectangles')
         B.flush(judge)
+    # ---- long runs of zeros (and FALSE) inside a rectangle: more than 100 in
+    # reading order; they are values, and what follows them is still read ----
+    if ctx.shard in (5, 6, 7) or thorough:
+        for zi, (rows, cols, zero) in enumerate((
+                (1, 130, 0), (130, 1, 0.0), (12, 12, 0), (3, 60, 0),
+                (1, 150, False), (2, 110, 0))):
+            if zi % 3 != ctx.shard % 3 and not thorough:
+                continue
+            flat = [zero] * (rows * cols)
+            head, tail = min(10, cols), max(rows * cols - 12, 0)
+            for i in list(range(head)) + list(range(tail, rows * cols)):
+                flat[i] = numbers(rng, 1)[0]
+            m = [flat[r * cols:(r + 1) * cols] for r in range(rows)]
+            add_rect_cases(m, 'zero-run',
+                           funcs=['SUM', 'AVERAGE', 'MIN', 'MAX', 'COUNT',
+                                  'COUNTA'] if zero is not False
+                           else ['SUM', 'COUNTA', 'MAX'])
+            ctx.event('long_zero_runs')
+            B.flush(judge)
     RECT_FLAGS[0] = F4
 
     # ---- whole numbers next to each other beyond 2^53 (cell values hold them
@@ -520,6 +540,18 @@ def run(ctx):
                   for (s_, c, r), v in cells.items()}
         for j, (f, ast) in enumerate(probes.items()):
             inputs[f'H{j + 1}'] = '=' + ref.render(ast)
+        # an aggregate over the range and a cell that FAILS while a switch is
+        # on: evaluated once (fails), then the switch is turned off
+        sw_ast = ('call', 'IF', [
+            ('bin', '=', ('ref', None, 11, 1, False, False), ('lit', 1, '1')),
+            ('call', 'NOSUCHFUNCTION', [('lit', 1, '1')]),
+            ('lit', 4.5, '4.5')])
+        sw_probe = ('call', 'SUM', [rg, ('ref', None, 10, 1, False, False)])
+        wb.cells[(S, 10, 1)] = ('f', sw_ast)
+        wb.cells[(S, 11, 1)] = 1
+        inputs['J1'] = '=' + ref.render(sw_ast)
+        inputs['K1'] = 1
+        inputs['H9'] = '=' + ref.render(sw_probe)
         try:
             # the model the aggregates are evaluated on: compiled, or handed
             # on by the API (deep copy, JSON file, extraction of everything)
@@ -544,6 +576,27 @@ def run(ctx):
                 v = rng.randint(-800, 800) / 8
                 ev.set_cell_value(build_addr(key), v)
                 wb.cells[key] = v
+            if step == 1:
+                ev.set_cell_value(f'{S}!K1', 0)
+                wb.cells[(S, 11, 1)] = 0
+            got9 = subject.outcome_of(lambda: ev.evaluate(f'{S}!H9'))
+            ctx.event('switched_failure_evaluations')
+            if step == 0:
+                if got9[0] != 'raised':
+                    ctx.note(f'the switched aggregate returned {got9} while '
+                             f'the switch was on')
+            else:
+                try:
+                    want9 = ('value', ref.to_norm(wb.eval(sw_probe, S)))
+                    judge(sw_probe, {'func': 'SUM', 'cells': dict(
+                        (build_addr(k), v) for k, v in wb.cells.items()
+                        if not isinstance(v, tuple)),
+                        'kinds': f'after-a-failed-evaluation-{step}',
+                        'two_d': False,
+                        'nt': ('SUM', 'after-failure', step, rows, cols)},
+                        got9, want9)
+                except ref.Undecided:
+                    pass
             for j, (f, ast) in enumerate(probes.items()):
                 got = subject.outcome_of(
                     lambda: ev.evaluate(f'{S}!H{j + 1}'))
